@@ -119,6 +119,9 @@ func (ke *KeyExchange) SetPeerParameters(peerPub *ecdsa.PublicKey, peerUID []byt
 	if peerPub.Curve != ke.privateKey.Curve {
 		return errors.New("sm2: peer public key is not expected/supported")
 	}
+	if peerPub.X == nil || peerPub.Y == nil || !peerPub.Curve.IsOnCurve(peerPub.X, peerPub.Y) {
+		return errors.New("sm2: invalid peer public key")
+	}
 
 	var err error
 	ke.peerPub = peerPub
